@@ -40,6 +40,16 @@ class CallableInstance:
         return None
 
 
+class NamedWrapper:
+    """a class-based decorator instance that copied the wrapped function's __name__ (not its __qualname__) onto itself"""
+    def __init__(self, fn):
+        self.fn = fn
+        self.__name__ = fn.__name__
+
+    def __call__(self, *a, **k):
+        return self.fn(*a, **k)
+
+
 class WithMethod:
     def method(self, *a, **k):
         return None
@@ -66,18 +76,20 @@ def handle_kinds(aio):
     if aio:
         return [("async def", coro_function), ("partial(async)", functools.partial(coro_function, 1)),
                 ("async callable instance", AsyncCallable()), ("lambda->coro", lambda *a: coro_function()),
-                ("bound method", WithMethod().method)]
+                ("bound method", WithMethod().method), ("wrapper with __name__ only", NamedWrapper(coro_function))]
     return [("def", plain_function), ("def no locals", no_locals), ("lambda", lambda *a, **k: None),
             ("builtin", print), ("bound method", WithMethod().method), ("partial", functools.partial(plain_function, 1)),
             ("callable instance", CallableInstance()), ("class", CallableInstance), ("staticmethod", WithMethod.static),
-            ("classmethod", WithMethod.clsm), ("partial of builtin", functools.partial(print, end=""))]
+            ("classmethod", WithMethod.clsm), ("partial of builtin", functools.partial(print, end="")),
+            ("wrapper with __name__ only", NamedWrapper(plain_function))]
 
 
 def prio_kinds(m):
     return [("linear", m["prioritization"].linear_priority_function),
             ("partial", functools.partial(lambda x, s, j, a, b: 1.0, 0)),
             ("callable instance", type("P", (), {"__call__": lambda self, s, j, a, b: 1.0})()),
-            ("lambda", lambda s, j, a, b: 1.0)]
+            ("lambda", lambda s, j, a, b: 1.0),
+            ("wrapper with __name__ only", NamedWrapper(lambda s, j, a, b: 1.0))]
 
 
 ALIASES = [None, None, None, "a", "job", "exactly16chars..", "seventeen chars!!", "x" * 40, "äöü中文 alias",
